@@ -123,6 +123,11 @@ Logged ==
     \/ /\ IsEvent("Seen") /\ pc = "run"
        /\ Prop = "C15" => [nopt |-> Ev.nopt, fresh |-> Ev.fresh, opts |-> ToSet(Ev.opts)] \in seen
        /\ UNCHANGED vars
+    \* the harness upstream reports the OPT it put into the answer it has just set: the upstream step TLC chose
+    \* silently must have been the one with exactly that OPT (otherwise o is inferred from the next snapshot only)
+    \/ /\ IsEvent("UpAns") /\ pc = "run"
+       /\ Prop = "C15" => uOpt = UpOpt(ToSet(Ev.o))
+       /\ UNCHANGED vars
     \/ /\ IsEvent("Reply") /\ pc = "run" /\ dir = "up" /\ at = 0
        /\ HandleRel(ReplyOf(Ev)) /\ reply' = ReplyOf(Ev) /\ pc' = "done"
        /\ UNCHANGED <<cq, tr, chain, dir, at, stack, Q, R, P, cOpt, uOpt, rOpt, err, cache, seen, fwdQ, fwdR, hist>>
